@@ -29,7 +29,7 @@ fn operand(r: i64, c: i64) -> Matrix {
 fn f(which: i64) -> impl Fn(f64) -> f64 {
     move |x| if which == 1 { x + 1.0 } else { 2.0 * x }
 }
-fn same(a: &Matrix, b: &Matrix) -> bool {
+pub fn same(a: &Matrix, b: &Matrix) -> bool {
     a.nrows == b.nrows && a.ncols == b.ncols && all_eq(&a.data, &b.data)
 }
 
